@@ -1520,6 +1520,8 @@ class Emitter:
             tgt = self.ctype(e['type'])
             if tgt.ptr or sube['kind'] == 'CXXThisExpr':
                 b = self.rv(sube, out)
+                if b.startswith('&'):
+                    return '%s.%s' % (b, '.'.join(['base'] * path_len))
                 return '&%s->%s' % (b, '.'.join(['base'] * path_len))
             b = self.rv_or_lv(sube, out)
             return '%s.%s' % (b, '.'.join(['base'] * path_len))
